@@ -226,8 +226,36 @@ def evaluate(setup, items, acc, llvm_known_hint=None):
         acc.accepted_forms.add(plan.idx)
         if len(hx) != 8:
             if plan.name == "mov" and len(hx) in (16, 24, 32):
-                acc.c["pseudo_sequences"] += 1      # MOV Rd, #imm expands to MOVZ/MOVK sequences; not a db form
+                acc.c["pseudo_sequences"] += 1      # MOV Rd, #imm expands to MOVZ/MOVN + MOVK sequences; not a db form
                 acc.pseudo.add(fkey)
+                if "movimm" in c.flags and not ac.has_ev(c, "badid"):
+                    # judged by value: the first word writes the register, every following word must be a MOVK of the same register
+                    reg, val, size, single = c.flags["movimm"]
+                    words = [word_of(hx[i:i + 8]) for i in range(0, len(hx), 8)]
+                    eff = ar.mov_imm_effect(words[0])
+                    got, why = None, ""
+                    if eff is None or eff[0] != "wide":
+                        why = "first word %08x is no MOVZ/MOVN" % words[0]
+                    else:
+                        got, rd, sf0 = eff[2], eff[1], words[0] >> 31
+                        for wk in words[1:]:
+                            hw = (wk >> 21) & 3
+                            sfk = wk >> 31
+                            if (wk >> 23) & 0xFF != 0b11100101 or (wk & 31) != rd or (not sfk and hw > 1) or (size == 32 and sfk):
+                                got, why = None, "word %08x is no MOVK of the same register" % wk
+                                break
+                            got = (got & ~(0xFFFF << (16 * hw))) | (((wk >> 5) & 0xFFFF) << (16 * hw))
+                            if not sfk:
+                                got &= 0xFFFFFFFF          # a write to the W view clears the upper half of the X register
+                        if got is not None and (rd != ac.gp_field(reg) or reg == "sp" or (size == 32 and sf0)):
+                            got, why = None, "sequence targets register field %d / width %d" % (rd, 64 if sf0 else 32)
+                    if got == val:
+                        acc.c["value_decided"] += 1
+                        acc.c["distinct_nontrivial"] += 1
+                    else:
+                        acc.violation(kbase + "word-mismatch", "`%s` -> %s which %s; requested: %s := %#x" % (
+                            c.emit, hx, why or "materialises %#x" % got, ac.gp_name("x" if size == 64 else "w", reg, False), val), replay_text(plan, c))
+                    continue
                 acc.c["undecided"] += 1
                 continue
             acc.violation(kbase + "word-mismatch", "`%s` accepted but %d bytes were appended (%s)" % (c.emit, len(hx) // 2, hx), replay_text(plan, c))
